@@ -161,6 +161,10 @@ QUEUE_CORE = ["LockingDeque.", "ActiveObject.run_event", "HsmWithQueues.next_rtc
               "HsmWithQueues.post_lifo"]
 
 
+# where the wake-up token protocol lives (instruction-granularity harnesses)
+TOKEN_PROTOCOL = ["LockingDeque.", "ActiveObject.run_event"]
+
+
 def thread_states(s):
     return [(t.tid, t.name, t.label, t.finished) for t in s.threads]
 
